@@ -54,7 +54,7 @@ pub trait R7ToString: R7Arg {
 
 impl R7ToString for i128 {
     #[verifier::external_body]
-    fn r7_to_string(&self) -> (s: String) { alloc::string::ToString::to_string(self) }
+    fn r7_to_string(&self) -> (s: String) { unimplemented!() }
 }
 
 // -- stand-in for `core::fmt::Formatter<'_>`: what was requested (precision) and a ghost log of what was emitted
@@ -92,22 +92,43 @@ pub open spec fn r7_pad_integral_plain(is_nonnegative: bool, buf: Seq<char>) -> 
 }
 
 // -- stand-ins for the traits `core::fmt::Debug`, `core::fmt::Display` and `From<Decimal> for String`:
-// same method signatures; Verus does not allow a `requires` on the implementation of an external
-// trait, so the quantifier domain of the property (`valid(d)`) enters through the ghost member r7_pre.
+// same method signatures.  Verus allows neither a `requires` on the implementation of an external trait
+// nor (when two traits with a method of the same name are implemented for one type, as Debug/Display
+// are) an `ensures` on the implementing method, so the contract enters through ghost members: r7_pre is
+// the quantifier domain of the property (`valid(d)`), r7_post<i> are its named clauses (filled in from the
+// contract by units/format.py; `before`/`after` are the formatter at entry/exit).
 pub trait R7Debug {
     spec fn r7_pre(&self) -> bool;
-    fn fmt(&self, form: &mut R7Formatter) -> core::fmt::Result
-        requires self.r7_pre();
+    spec fn r7_post0(&self, before: R7Formatter, after: R7Formatter, r: core::fmt::Result) -> bool;
+    spec fn r7_post1(&self, before: R7Formatter, after: R7Formatter, r: core::fmt::Result) -> bool;
+    fn fmt(&self, form: &mut R7Formatter) -> (r: core::fmt::Result)
+        requires self.r7_pre(),
+        ensures
+            self.r7_post0(*old(form), *final(form), r), // @post0 R7Debug
+            self.r7_post1(*old(form), *final(form), r), // @post1 R7Debug
+    ;
 }
 
 pub trait R7Display {
     spec fn r7_pre(&self) -> bool;
-    fn fmt(&self, form: &mut R7Formatter) -> core::fmt::Result
-        requires self.r7_pre();
+    spec fn r7_post0(&self, before: R7Formatter, after: R7Formatter, r: core::fmt::Result) -> bool;
+    spec fn r7_post1(&self, before: R7Formatter, after: R7Formatter, r: core::fmt::Result) -> bool;
+    fn fmt(&self, form: &mut R7Formatter) -> (r: core::fmt::Result)
+        requires self.r7_pre(),
+        ensures
+            self.r7_post0(*old(form), *final(form), r), // @post0 R7Display
+            self.r7_post1(*old(form), *final(form), r), // @post1 R7Display
+    ;
 }
 
 pub trait R7From<T>: Sized {
     spec fn r7_pre(v: T) -> bool;
-    fn from(v: T) -> Self
-        requires Self::r7_pre(v);
+    spec fn r7_post0(v: T, r: Self) -> bool;
+    spec fn r7_post1(v: T, r: Self) -> bool;
+    fn from(v: T) -> (r: Self)
+        requires Self::r7_pre(v),
+        ensures
+            Self::r7_post0(v, r), // @post0 R7From
+            Self::r7_post1(v, r), // @post1 R7From
+    ;
 }
